@@ -17,7 +17,12 @@ func (x *Exec) unsupported(fr *frame, ins ssa.Instruction, st *State, why string
 	x.note("unmodelled: " + why + " in " + fr.fn.String())
 	x.curTaint = true
 	ws := &WriteSet{Top: true}
-	n := x.havocForWrites(st, ws, why)
+	var n *State
+	if x.errflow {
+		n = x.havocHeapKeepGhosts(st, nil)
+	} else {
+		n = x.havocForWrites(st, ws, why)
+	}
 	if v, ok := ins.(ssa.Value); ok {
 		fr.vals[v] = sval{t: x.freshConst("unk", x.so.sortOf(v.Type()))}
 	}
@@ -227,8 +232,29 @@ func (x *Exec) mapKey(t string, kt types.Type, st *State) string {
 	return t
 }
 
+// localCellName: component of a non-escaping scalar local (address taken
+// only locally, e.g. named results in functions with defer).
+func localCellName(prefix string, t *ssa.Alloc) string {
+	return "L_" + sanitize(prefix) + sanitize(t.Parent().Name()) + "_" + t.Name()
+}
+
+func isScalarCell(et types.Type) bool {
+	switch et.Underlying().(type) {
+	case *types.Struct, *types.Array:
+		return false
+	}
+	return true
+}
+
 func (x *Exec) execAlloc(fr *frame, t *ssa.Alloc, st *State, reach string) *State {
 	et := t.Type().(*types.Pointer).Elem()
+	if !t.Heap && isScalarCell(et) {
+		comp := localCellName(fr.prefix, t)
+		x.so.addComp(comp, x.so.sortOf(et))
+		st.set(comp, x.define(comp, x.so.comps[comp], x.so.zeroOf(et)))
+		fr.vals[t] = sval{t: "0", loc: &Loc{Kind: "global", Comp: comp, ElemT: et}}
+		return st
+	}
 	var before []string
 	var sfp *predApp
 	if _, isS := et.Underlying().(*types.Struct); isS {
@@ -248,6 +274,12 @@ func (x *Exec) execAlloc(fr *frame, t *ssa.Alloc, st *State, reach string) *Stat
 		}
 		if g, ok := x.eng.onAlloc[comp]; ok {
 			x.assume("", "(not (select "+st.get("G_"+g)+" "+r+"))")
+		}
+		for k, g := range x.eng.onStoreFlag {
+			if strings.HasPrefix(k, comp+".") {
+				x.assume("", "(not (select "+st.get("G_"+g)+" "+r+"))")
+				break
+			}
 		}
 	case *types.Array:
 		comp := x.so.elemComp(u.Elem())
